@@ -182,6 +182,7 @@ type qgen struct {
 	r    *gen.Rand
 	c    *Corpus
 	docs []*DocSpec
+	cnl  []string // stretches (>= 3 runes) of content / names of the corpus that hold a cased-non-letter trigram
 }
 
 func newQGen(r *gen.Rand, c *Corpus) *qgen {
@@ -189,6 +190,17 @@ func newQGen(r *gen.Rand, c *Corpus) *qgen {
 	for i := range c.Repos {
 		for j := range c.Repos[i].Docs {
 			g.docs = append(g.docs, &c.Repos[i].Docs[j])
+		}
+	}
+	for _, d := range g.docs {
+		for _, text := range []string{d.IndexedContent(), d.Name} {
+			rs := []rune(text)
+			for i := 0; i+3 <= len(rs); i++ {
+				if hasCasedNonLetterTrigram(string(rs[i : i+3])) {
+					a, b := max(0, i-r.Intn(3)), min(len(rs), i+3+r.Intn(4))
+					g.cnl = append(g.cnl, string(rs[a:b]))
+				}
+			}
 		}
 	}
 	return g
@@ -212,14 +224,71 @@ func flipCase(r *gen.Rand, s string) string {
 	rs := []rune(s)
 	for i, c := range rs {
 		if r.Chance(1, 3) {
-			if unicode.IsUpper(c) {
-				rs[i] = unicode.ToLower(c)
-			} else if unicode.IsLower(c) && unicode.ToLower(unicode.ToUpper(c)) == c && agreeRune(unicode.ToUpper(c)) {
-				rs[i] = unicode.ToUpper(c)
-			}
+			rs[i] = otherCase(c)
 		}
 	}
 	return string(rs)
+}
+
+// otherCase: the other member of a two-element case pair inside the C01 quantifier (whatever its Unicode category:
+// letters, but also cased non-letters such as Roman numerals and circled letters); c itself otherwise.
+func otherCase(c rune) rune {
+	if l := unicode.ToLower(c); l != c && agreeRune(l) {
+		return l
+	}
+	if u := unicode.ToUpper(c); u != c && unicode.ToLower(u) == c && agreeRune(u) {
+		return u
+	}
+	return c
+}
+
+// casedNonLetters: every rune with a case variant that is not a letter and lies inside the C01 quantifier
+// (computed from the Unicode tables: ROMAN NUMERALs U+2160-217F, CIRCLED LATIN LETTERs U+24B6-24E9).
+var casedNonLetters = func() []rune {
+	var out []rune
+	for c := rune(0); c <= 0x1FFFF; c++ {
+		if unicode.SimpleFold(c) != c && !unicode.IsLetter(c) && agreeRune(c) {
+			out = append(out, c)
+		}
+	}
+	return out
+}()
+
+// casedNonLetterToken: 2-5 runes, cased non-letters mixed with digits and punctuation, so that some trigrams contain no
+// letter at all but do contain a cased rune ("Ⅷ.Ⅸ", "ⓐⓑⓒ", "3.Ⅲ").
+func casedNonLetterToken(r *gen.Rand) string {
+	var rs []rune
+	n := r.Range(2, 5)
+	for i := 0; i < n; i++ {
+		switch r.Intn(5) {
+		case 0:
+			rs = append(rs, gen.Pick(r, []rune(".-:3 ")))
+		default:
+			rs = append(rs, gen.Pick(r, casedNonLetters))
+		}
+	}
+	return string(rs)
+}
+
+// hasCasedNonLetterTrigram: some trigram of s has no letter but a cased rune — the class of trigrams whose case
+// variants cannot be found by looking at letters only.
+func hasCasedNonLetterTrigram(s string) bool {
+	rs := []rune(s)
+	for i := 0; i+3 <= len(rs); i++ {
+		letter, cased := false, false
+		for _, c := range rs[i : i+3] {
+			if unicode.IsLetter(c) {
+				letter = true
+			}
+			if unicode.SimpleFold(c) != c {
+				cased = true
+			}
+		}
+		if !letter && cased {
+			return true
+		}
+	}
+	return false
 }
 
 // literal: a piece of text that mostly occurs in the corpus (content or name), sometimes a word that may not.
@@ -344,6 +413,21 @@ func (g *qgen) textAtom() QSpec {
 			hi = 20
 		}
 		q.Pat = g.literal(lo, hi, q.FileName)
+		if len(g.cnl) > 0 && r.Chance(1, 5) {
+			// a stretch of text around a cased non-letter token of the corpus, case-insensitively, in some other casing
+			q.CaseSens = false
+			q.Pat = gen.Pick(r, g.cnl)
+			if r.Chance(1, 2) {
+				q.Pat = string([]rune(q.Pat)[:min(len([]rune(q.Pat)), r.Range(3, 5))])
+			}
+			rs := []rune(q.Pat)
+			for i := range rs {
+				if r.Chance(2, 3) {
+					rs[i] = otherCase(rs[i])
+				}
+			}
+			q.Pat = string(rs)
+		}
 		if !q.CaseSens && r.Chance(1, 2) {
 			q.Pat = flipCase(r, q.Pat)
 		}
